@@ -524,6 +524,8 @@ def run(run, model):
     run.try_rule(c09.r09_1, model)
     run.try_rule(c09.r09_3, model)
     run.try_rule(c09.r09_12, model)
+    run.try_rule(c09.r09_13, model)
+    run.try_rule(c09.r09_14, model)
     run.try_rule(c06.r06_2, model)
     run.try_rule(c06.r06_7, model)
     run.try_rule(c06.r06_8, model)
